@@ -14,11 +14,10 @@ import typing as T
 
 from ..core import Module, Repo, Undecided, AnchorMissing, norm, short
 from ..report import RuleCtx
-from ..consteval import fold_expr
 from ..cfg import CFG
 from .. import tables
 from ..tables import Atom
-from .c01_sym import SymPath, sym_paths, is_call, show, private_helpers
+from .c01_sym import SymPath, sym_paths, is_call, show, private_helpers, fold_expr
 
 MPARSER = 'mesonbuild/mparser.py'
 
